@@ -359,6 +359,11 @@ func TestRecordSimple(t *testing.T) {
 				if rnd.Intn(3) == 0 {
 					plan = append(plan, planned{rnd.Intn(steps), terms[rnd.Intn(len(terms))]})
 				}
+				if cfg.Graceful && len(terms) > 1 && rnd.Intn(3) == 0 {
+					// a rough stop / cancellation while a graceful stop is pending (inputs still open)
+					at := rnd.Intn(steps/3 + 1)
+					plan = []planned{{at, "grace"}, {at + 1 + rnd.Intn(steps-at), terms[rnd.Intn(len(terms)-1)]}}
+				}
 			}
 			for s := 0; s < steps; s++ {
 				for j := range plan {
